@@ -1,6 +1,7 @@
 import Claripy.AST.Subst
 import ClaripyProofs.Lemmas.AST.RulesSound
 import ClaripyProofs.Lemmas.AST.IteRelocSound
+import ClaripyProofs.Lemmas.AST.CanonInj
 /-!
 # C08 — substitution, canonicalisation and ITE utilities preserve meaning
 
@@ -98,6 +99,19 @@ theorem C08_rename (env : Env) (ρ : String → String) (e : Expr) : eval env (r
 theorem C08_canonicalize (env : Env) (e : Expr) :
     ∃ ρ : String → String, canonicalize e = rename ρ e ∧ eval env (canonicalize e) = eval (Env.comp env ρ) e :=
   ⟨_, rfl, rename_sound env _ e⟩
+
+/-- **C08 (canonicalize is a renaming that merges nothing)**: two variables among the leaves `canonicalize` walks
+(`leaf_asts()`) that have different names get different canonical names.  (That the walk reaches every variable of the
+expression is the modelled `leafWalk` with its fuel; the correspondence compares the walk order with the real one.) -/
+theorem C08_canonicalize_injective (e : Expr) (l1 l2 : Expr) (h1 : l1 ∈ leafAsts e) (h2 : l2 ∈ leafAsts e)
+    (n1 n2 : String) (hn1 : leafName l1 = some n1) (hn2 : leafName l2 = some n2) (hne : n1 ≠ n2) :
+    canonicalize e = rename (canonRho e) e ∧ canonRho e n1 ≠ canonRho e n2 :=
+  ⟨rfl, canonRho_injective e l1 l2 h1 h2 n1 n2 hn1 hn2 hne⟩
+
+/-- the right-to-left walk: the second operand is leaf 0, the first is leaf 1; a variable that already has a canonical
+name is renamed like any other (here to itself) -/
+example : (canonicalize (.app .add [.bvs "a" 8, .bvs "canonical_0" 8]) == .app .add [.bvs "canonical_1" 8, .bvs "canonical_0" 8]) = true := by
+  decide +kernel
 
 /-! ### ite_cases / ite_dict -/
 
